@@ -83,7 +83,22 @@ def check(repo, res, tier):
                     'relabelled by the node->task mapping' % short(ab(gp)))
             continue
         res.ok('C14.G1', f, wp, 'plan graph = relabel_nodes(G, %s)' % m)
-        check_node_loop(repo, canon, res, f, fr, node_loop, tasks_e.id, m, task_calls, ab, G, NODE)
+        # provenance form first: tasks = seq[T for topo(G)], mapping = map[node: T for topo(G)] with one
+        # and the same Task(...) expression T -- however the two are put together
+        topo = canon.p(node_loop.iter, fr)
+        Pt = canon.p(tasks_e, fr)
+        Pm = canon.p(ast.Name(id=m, ctx=ast.Load()), fr)
+        from ..norm import split_seq
+        st_ = split_seq(Pt)
+        mm = re.fullmatch(r'map\[%s: (?P<v>.*) for %s\]' % (re.escape(NODE), re.escape(topo)), Pm)
+        if st_ is not None and st_[1] == topo and not st_[2] and mm and mm.group('v') == st_[0] \
+                and re.match(r'\{?(?:[\w.]+\.)?Task\(', st_[0]):
+            res.ok('C14.G1', f, node_loop, 'one task per node: tasks = seq[Task(..) for topo(G)], mapping = map[node: Task(..)]',
+                   short(ab(st_[0]), 80))
+            res.ok('C14.G1', f, node_loop, 'task list in topological order, mapping keyed by the node')
+            res.ok('C14.G1', f, node_loop, 'task list only appended to inside the node loop')
+        else:
+            check_node_loop(repo, canon, res, f, fr, node_loop, tasks_e.id, m, task_calls, ab, G, NODE)
     # ---- no value leaks from one node's iteration into the next ------------
     from .common import stale_reads
     st = stale_reads(f, node_loop)
